@@ -80,7 +80,7 @@ let raw_of kv =
     rc_redir = bytes_of_hex (get "rredir" kv);
     rc_privateKey = bytes_of_hex (get "rpk" kv);
     rc_admin = bytes_of_hex (get "radmin" kv);
-    rc_dbPath = (if get "rdb" kv = "1" then [N0] else []);
+    rc_dbPath = (if get "rdb" kv <> "0" then [N0] else []);      (* 2 = a path bolt.Open cannot open *)
     rc_keepAlive = z_of_hex (get "rka" kv);
     rc_cnc = (get "rcnc" kv = "1") }
 let resolve_ip_table kv =
@@ -126,7 +126,7 @@ let () = iter_lines (fun line ->
         if get "cfg" kv <> "1" then parse_state kv, ""
         else begin
           let dbrec = (parse_state kv).st_db in
-          match init_state (resolve_ip_table kv) (resolve_addr_table kv) (fun _ -> Some dbrec) (raw_of kv) with
+          match init_state (resolve_ip_table kv) (resolve_addr_table kv) (fun _ -> if get "rdb" kv = "2" then None else Some dbrec) (raw_of kv) with
           | IErr e -> raise (Failure ("INIT " ^ show_ierr e))
           | IOk io ->
             let st = io.io_state in
